@@ -165,7 +165,15 @@ def one(beh, res, clause, kinds):
                     clause("pickling preserves form and frame (they compare equal to the source's)", bool(same_meta), "sv/pickle-metadata",
                            f"{act}: unpickled form/frame compare unequal to the source's ({b.form} {b.frame})", data)
                 elif op == "asorbit":
+                    before_prop = getattr(a, "propagator", None) if isinstance(a, Orbit) else None
+                    before_keys = sorted(a._data.keys())
                     objs.append(a.as_orbit("Kepler"))
+                    # the receiver of a conversion that returns a new object is left as it was: no propagator slipped into a bare
+                    # state vector's metadata, an orbit keeps its own propagator object
+                    same = sorted(a._data.keys()) == before_keys and (not isinstance(a, Orbit) or a.propagator is before_prop)
+                    clause("as_orbit leaves its receiver unchanged (metadata keys, own propagator)", same, "sv/asorbit-receiver",
+                           f"{act}: receiver metadata keys {sorted(a._data.keys())} (were {before_keys}); propagator kept: "
+                           f"{(not isinstance(a, Orbit)) or a.propagator is before_prop}", data)
                 elif op == "assv":
                     objs.append(a.as_statevector())
             except (UnknownFormError, UnknownFrameError, ValueError, AttributeError, KeyError, RuntimeError) as e:
